@@ -223,6 +223,7 @@ func (fr *Frame) externalCall(name string, sig *types.Signature, args []Val, rt 
 	vc := fr.vc
 	vc.note("external call " + name + ": default effect (args' pointees havocked, result arbitrary)")
 	set := map[string]bool{}
+	h := fr.cur.heap
 	for _, a := range args {
 		if a.Typ == nil {
 			continue
@@ -231,21 +232,32 @@ func (fr *Frame) externalCall(name string, sig *types.Signature, args []Val, rt 
 		case *types.Signature:
 			set["*"] = true
 		case *types.Slice:
-			if !vc.flatStruct(u.Elem()) {
-				set["E_"+vc.typeName(u.Elem())+"*"] = true
+			if sh := vc.shape(u.Elem()); !vc.flatStruct(u.Elem()) {
+				// only the backing array of this slice
+				for _, l := range sh {
+					fam := "E_" + vc.typeName(u.Elem()) + l.Suffix
+					vc.family(fam, famSortFor(l.Sort, 2))
+					inner := vc.fresh("hv.arr", "(Array Int "+l.Sort+")")
+					h = vc.heapSet(h, fam, vc.define(fam, vc.famSort[fam], "(store "+vc.lookup(h, fam)+" "+a.L[0]+" "+inner+")"))
+				}
+			} else {
+				set["H_"+vc.typeName(u.Elem())+".*"] = true
 			}
 		case *types.Pointer:
 			if a.Loc != nil {
-				set[a.Loc.Fam+"*"] = true
+				nv := vc.freshVal("hv", a.Loc.Typ)
+				vc.assume(fr.curR, vc.typeFacts(nv))
+				h = vc.storeLoc(h, a.Loc, nv)
 			} else if vc.flatStruct(u.Elem()) {
 				set["H_"+vc.typeName(u.Elem())+".*"] = true
 			} else {
 				set["E_"+vc.typeName(u.Elem())+"*"] = true
 			}
 		case *types.Interface:
-			// e.g. []any varargs are slices; a bare interface arg may carry a pointer: ignored (listed)
+			// a bare interface arg may carry a pointer: ignored (listed)
 		}
 	}
+	fr.cur.heap = h
 	fr.cur.heap = vc.heapHavoc(fr.cur.heap, set)
 	fr.bumpNow()
 	return fr.typed(vc.freshVal("ret."+sanitize(name), rt))
@@ -275,9 +287,10 @@ func (fr *Frame) invoke(c *ssa.CallCommon, recv Val, args []Val, rt types.Type, 
 		}
 		return fr.applyContract(ct, c.Method.Type().(*types.Signature), names, all, rt, pos, key)
 	}
-	// receiver with statically known concrete type (MakeInterface in this activation)
-	// -> not tracked; fall back
 	if n, ok := types.Unalias(it).(*types.Named); ok && n.Obj().Pkg() != nil && vc.P.RepoPkgs[n.Obj().Pkg().Path()] {
+		if impls := vc.implementors(it); len(impls) > 0 && len(impls) <= 8 && fr.depth < maxInlineDepth {
+			return fr.invokeDispatch(c, impls, recv, args, rt, pos)
+		}
 		return fr.unknownCall("invoke "+iname+"."+c.Method.Name()+" (no iface contract)", all, rt, true)
 	}
 	return fr.externalCall(iname+"."+c.Method.Name(), c.Method.Type().(*types.Signature), all, rt)
@@ -787,3 +800,116 @@ func (vc *VC) modSetContractT(ct *Contract, callee *ssa.Function, set map[string
 	}
 }
 
+
+// implementors: the closed set of repository types implementing a repository
+// interface that has unexported methods (nobody outside can implement it) —
+// or any repository interface when all implementors are in the repository.
+func (vc *VC) implementors(it types.Type) []types.Type {
+	key := "impl:" + vc.typeName(it)
+	if v, ok := implMemo[key]; ok {
+		return v
+	}
+	iface, ok := it.Underlying().(*types.Interface)
+	if !ok {
+		return nil
+	}
+	closed := false
+	if n, ok := types.Unalias(it).(*types.Named); ok && !n.Obj().Exported() {
+		closed = true // an unexported interface type can only be populated by this package
+	}
+	for i := 0; i < iface.NumMethods(); i++ {
+		if !iface.Method(i).Exported() {
+			closed = true
+		}
+	}
+	var out []types.Type
+	if closed {
+		var names []string
+		for n := range vc.P.TypesByName {
+			names = append(names, n)
+		}
+		sortStrings(names)
+		for _, n := range names {
+			T := vc.P.TypesByName[n]
+			if _, isI := T.Underlying().(*types.Interface); isI {
+				continue
+			}
+			if types.Implements(T, iface) {
+				out = append(out, T)
+			} else if types.Implements(types.NewPointer(T), iface) {
+				out = append(out, types.NewPointer(T))
+			}
+		}
+	}
+	implMemo[key] = out
+	return out
+}
+
+var implMemo = map[string][]types.Type{}
+
+// invokeDispatch: split an interface method call over the closed implementor set.
+func (fr *Frame) invokeDispatch(c *ssa.CallCommon, impls []types.Type, recv Val, args []Val, rt types.Type, pos token.Pos) Val {
+	vc := fr.vc
+	type branch struct {
+		cond string
+		st   State
+		res  Val
+	}
+	var bs []branch
+	start := *fr.cur
+	startR := fr.curR
+	for _, T := range impls {
+		m := vc.P.SSA.LookupMethod(T, c.Method.Pkg(), c.Method.Name())
+		if m == nil {
+			continue
+		}
+		cond := eq(recv.L[0], vc.typeTag(T))
+		st := start
+		fr.cur = &st
+		fr.curR = vc.define("R.dispatch", "Bool", and(startR, cond))
+		rv := fr.unpayload(recv.L[1], T)
+		rv.Typ = T
+		all := append([]Val{rv}, args...)
+		res := fr.staticCall(m, nil, all, rt, pos)
+		bs = append(bs, branch{cond: cond, st: *fr.cur, res: res})
+	}
+	fr.curR = startR
+	if len(bs) == 0 {
+		fr.cur = &start
+		return fr.unknownCall("invoke without implementors", args, rt, true)
+	}
+	var conds []string
+	var hs []*Heap
+	for _, b := range bs {
+		conds = append(conds, b.cond)
+		hs = append(hs, b.st.heap)
+	}
+	// closed world: the dynamic type is one of the implementors (a nil receiver panics)
+	vc.assume(startR, or(conds...))
+	ns := start
+	ns.heap = vc.heapMerge(conds, hs)
+	now := bs[len(bs)-1].st.now
+	for i := len(bs) - 2; i >= 0; i-- {
+		now = ite(conds[i], bs[i].st.now, now)
+	}
+	ns.now = vc.define("now", "Int", now)
+	fr.cur = &ns
+	out := Val{Typ: rt}
+	n := len(vc.shape(rt))
+	if c.Signature().Results().Len() == 0 {
+		return out
+	}
+	for l := 0; l < n; l++ {
+		t := "0"
+		if l < len(bs[len(bs)-1].res.L) {
+			t = bs[len(bs)-1].res.L[l]
+		}
+		for i := len(bs) - 2; i >= 0; i-- {
+			if l < len(bs[i].res.L) {
+				t = ite(conds[i], bs[i].res.L[l], t)
+			}
+		}
+		out.L = append(out.L, t)
+	}
+	return fr.nameVal2("dispatch.ret", out)
+}
